@@ -644,10 +644,13 @@ impl fmt::Display for Exp {
                 format!("{} {} {}", string_lhs, operator, string_rhs)
             }
             Exp::UnOp(op, exp) => {
-                if exp.is_leaf() {
-                    format!("{}{}", op, exp)
+                let inner = exp.to_string();
+                // a leaf that carries a sign of its own (a negative constant)
+                // is parenthesised: the grammar reads one prefix operator
+                if exp.is_leaf() && !inner.starts_with('-') {
+                    format!("{}{}", op, inner)
                 } else {
-                    format!("{}({})", op, exp)
+                    format!("{}({})", op, inner)
                 }
             }
         };
